@@ -2613,7 +2613,12 @@ impl From<Weekday> for time::Weekday {
 pub fn system2jdn(t: SystemTime) -> Result<(Jdnum, u32), ArithmeticError> {
     let ts = match t.duration_since(UNIX_EPOCH) {
         Ok(d) => i64::try_from(d.as_secs()),
-        Err(e) => i64::try_from(e.duration().as_secs()).map(|i| -i),
+        Err(e) => {
+            // Round towards negative infinity: an instant a fraction of a
+            // second before a whole second belongs to the second below it.
+            let d = e.duration();
+            i64::try_from(d.as_secs()).map(|i| if d.subsec_nanos() > 0 { -i - 1 } else { -i })
+        }
     }
     .map_err(|_| ArithmeticError)?;
     unix2jdn(ts)
